@@ -1,7 +1,7 @@
 """C02 — parallel evaluation equals serial evaluation under every schedule."""
 from . import core, eng, gen, engcheck
 
-THEOREMS = ["runPar_eq_leastModel", "par_eq_serial", "par_schedule_independent", "nd_eq_leastModel", "nd_runs_agree", "par_is_nd", "runPhysPar_eq_leastModel", "runPhysPar_schedule_pool_independent", "tcPar_hyps", "runPhysParLat_spec", "runPhysParLat_spec_antisymm", "runPhysParLat_needs_flag_law", "distPar_hyps"]
+THEOREMS = ["runPar_eq_leastModel", "par_eq_serial", "par_schedule_independent", "nd_eq_leastModel", "nd_runs_agree", "par_is_nd", "runPhysPar_eq_leastModel", "runPhysPar_schedule_pool_independent", "tcPar_hyps", "runPhysParLat_spec", "runPhysParLat_spec_antisymm", "runPhysParLat_needs_flag_law", "distPar_hyps", "runPhysPar_agg_eq_model", "runPhysPar_agg_schedule_pool_independent"]
 TRUSTED = ["Lean 4.33.0 kernel", "axioms: propext, Classical.choice, Quot.sound only (audited per theorem)",
            "statement: Props/C02.lean (the parallel iteration as an arbitrary interleaving of atomic head updates over frozen total/delta; "
            "every schedule computes the least model, hence equals the serial result)",
@@ -17,6 +17,10 @@ TRUSTED = ["Lean 4.33.0 kernel", "axioms: propext, Classical.choice, Quot.sound 
            "schedule order): for EVERY schedule, pool size, rule-scheduling mode and fuel the run never panics and ends with one row per key, closed, least for monotone programs (runPhysParLat_spec); the flag law of "
            "join_mut (value untouched when it reports unchanged) is a hypothesis and NEEDED (runPhysParLat_needs_flag_law: a machine-checked counterexample without it); it follows from antisymmetry "
            "(runPhysParLat_spec_antisymm); tied by `eng runppl` on the lattice programs of this check",
+           "Props/C02PhysAgg.lean (Proofs/PhysParAgg*.lean): ascent_par! on stratified programs with aggregation / negation over its concurrent indices - for EVERY schedule, pool size and fuel no panic and the "
+           "stratified model, every aggregation over the final rows, each tuple once (runPhysPar_agg_eq_model: the multiplicity invariant of the hash indices carried through the concurrent inserts, the shard-wise "
+           "merge of CRelNoIndex and the schedule permutations); two runs under different schedules and pools agree (runPhysPar_agg_schedule_pool_independent); NOT modelled: the frozen check of the aggregated "
+           "relation's index (the model checks clause relations only; the proof shows the flags hold: iteration_aggFrozen); tied by `eng runpp` on the aggregation programs of this check",
            "tie: ascent_par! twins of generated programs (relations, lattices, aggregation, with and without #![inter_rule_parallelism]) run in pools "
            "of 1,2,3,4,8,16 threads under seeded perturbation of the concurrent index inserts (hook), with a hang watchdog, vs the serial model and oracle",
            "PARTIAL: atomicity of DashMap shard locks, boxcar push, RwLock/Mutex and rayon's completion (happens-before for the Relaxed `changed` flag) "
@@ -149,7 +153,7 @@ def canon(c, out):
 
 
 def check(tier, replay=None):
-    return engcheck.run_property("C02", tier, modules=["AscentVerif.Props.C02", "AscentVerif.Props.C02ND", "AscentVerif.Props.C02Phys", "AscentVerif.Props.C02PhysLat"], theorems=THEOREMS, trusted=TRUSTED, group="c02",
+    return engcheck.run_property("C02", tier, modules=["AscentVerif.Props.C02", "AscentVerif.Props.C02ND", "AscentVerif.Props.C02Phys", "AscentVerif.Props.C02PhysLat", "AscentVerif.Props.C02PhysAgg"], theorems=THEOREMS, trusted=TRUSTED, group="c02",
                                  build=build, oracle=oracle, known=known, what="ascent_par! programs under perturbed schedules",
                                  rule="ascent_par! twins of generated relational / lattice / aggregation programs, with and without #![inter_rule_parallelism], constructed and run "
                                       "in pools of 1..16 threads, under seeded perturbation (yield / spin / sleep at every concurrent index insert); every run must equal the "
